@@ -1,29 +1,26 @@
 #!/bin/bash
 # usage: tools/try_seed.sh <seed dir with patch.diff demo.py> <property ids...>
 # 1. confirms (scratch worktree of /repo HEAD): demo fails with the patch, passes without, suite passes with the patch
-# 2. applies the patch to /repo, runs the quick checks of the given properties, reverts.
+# 2. runs the quick checks of the given properties against the patched scratch worktree (VERIF_REPO): /repo itself is never
+#    touched, and the evidence / replays of these runs go to build/alt_<worktree>/ instead of evidence/ and replays/.
 set -u
 D=$(realpath "$1"); shift
 WT=/tmp/seedcheck_$$
 git -C /repo worktree add --detach $WT HEAD -q || exit 2
-cleanup() { git -C /repo worktree remove --force $WT 2>/dev/null; git -C /repo checkout -- . ; }
+cleanup() { git -C /repo worktree remove --force $WT 2>/dev/null; rm -rf /verif/build/alt__tmp_seedcheck_$$ /verif/build/gen/*__tmp_seedcheck_$$; }
 trap cleanup EXIT
 cd $WT
-PYTHONPATH=$WT /venv/bin/python $D/demo.py > /tmp/seed_demo_clean.log 2>&1; echo "demo on clean tree: exit $?"
+PYTHONPATH=$WT /venv/bin/python $D/demo.py > /tmp/seed_demo_clean_$$.log 2>&1; echo "demo on clean tree: exit $?"
 git apply $D/patch.diff || { echo "PATCH DOES NOT APPLY"; exit 3; }
-PYTHONPATH=$WT /venv/bin/python $D/demo.py > /tmp/seed_demo_patched.log 2>&1; echo "demo on patched tree: exit $? ($(tail -1 /tmp/seed_demo_patched.log | cut -c1-150))"
+PYTHONPATH=$WT /venv/bin/python $D/demo.py > /tmp/seed_demo_patched_$$.log 2>&1; echo "demo on patched tree: exit $? ($(tail -1 /tmp/seed_demo_patched_$$.log | cut -c1-150))"
+rm -f /tmp/seed_demo_clean_$$.log /tmp/seed_demo_patched_$$.log
 if [ "${SKIP_SUITE:-0}" != 1 ]; then
-  PYTHONPATH=$WT timeout 3000 /venv/bin/python -m pytest -q -p no:cacheprovider -n 8 -k "not spark" -W ignore cubed/tests --junitxml=/tmp/seed_suite.xml > /tmp/seed_suite.log 2>&1
-  tail -1 /tmp/seed_suite.log
-  python3 /verif/tools/check_baseline.py /tmp/seed_suite.xml | head -8
+  PYTHONPATH=$WT timeout 3000 /venv/bin/python -m pytest -q -p no:cacheprovider -n 8 -k "not spark" -W ignore cubed/tests --junitxml=/tmp/seed_suite_$$.xml > /tmp/seed_suite_$$.log 2>&1
+  tail -1 /tmp/seed_suite_$$.log
+  python3 /verif/tools/check_baseline.py /tmp/seed_suite_$$.xml | head -8
+  rm -f /tmp/seed_suite_$$.xml /tmp/seed_suite_$$.log
 fi
 cd /verif
-# evidence written while a seeded change is applied must never replace the record of the unchanged tree
-EVB=$(mktemp -d /tmp/evid_backup_XXXX); cp -a /verif/evidence/. $EVB/
-git -C /repo apply $D/patch.diff || { echo "PATCH DOES NOT APPLY TO /repo"; exit 3; }
 for P in "$@"; do
-  ./check $P quick 2>&1 | grep -E "^VIOLATION|^KNOWN|^\[$P" | cut -c1-400
+  VERIF_REPO=$WT ./check $P quick 2>&1 | grep -E "^VIOLATION|^KNOWN|^\[$P" | cut -c1-400
 done
-git -C /repo checkout -- .
-cp -a $EVB/. /verif/evidence/; rm -rf $EVB
-echo "reverted: $(git -C /repo status --short | wc -l) modified files"
